@@ -928,10 +928,15 @@ class Engine:
             if not isinstance(f, int):
                 s2.facts[key(atom)] = val
                 s2.decisions.append((atom, val, ('try', t['sp']['line'])))
+            is_opt = 'option::Option' in t.get('callee_args', '') or 'option::Option' in (t.get('resolved') or '')
             if val:
-                outs.append((('adt', CF, 0, 'Continue', [('term', 'unwrap', [v])]), s2))
+                pay = ('sym', v[1] + ('#Some.0' if is_opt else '#Ok.0')) if v[0] == 'sym' else ('term', 'unwrap', [v])
+                outs.append((('adt', CF, 0, 'Continue', [pay]), s2))
+            elif is_opt:
+                outs.append((('adt', CF, 1, 'Break', [('adt', 'core::option::Option', 0, 'None', [])]), s2))
             else:
-                outs.append((('adt', CF, 1, 'Break', [('term', 'residual', [v])]), s2))
+                pay = ('sym', v[1] + '#Err.0') if v[0] == 'sym' else ('term', 'unwrap_err', [v])
+                outs.append((('adt', CF, 1, 'Break', [('adt', 'core::result::Result', 1, 'Err', [pay])]), s2))
         return outs
 
     def option_summary(self, name, is_opt, t, args, s, fn, fid, depth):
